@@ -31,6 +31,10 @@ CLAIMS = {
    text="Proof (Coq): over EVERY parsed cache document (any number of shards, null shards, null maps, any keys/templates, any ShardNo) and the no-document case (absent, empty, unparsable, crash prefix), the loaded cache is well-formed (hence, with C01, every history decoded with it neither panics nor hangs), contains only templates that are in the file, and save-then-load of any well-formed cache is the identity (so every exporter's data decodes exactly as before). Tie: the real Dump/GetCache on caches reached by decoding, EVERY proper prefix of each saved file, structured documents generated from the document type (incl. well-formed JSON with type/range errors), byte-level mutations, absent/empty/directory paths, a smaller cache saved over a larger file; contents observed through Dump, usability by announcing and decoding after the load.",
    note="Trusted: Coq kernel; hand model of GetCache/Dump over the parsed document (correspondence); encoding/json (round trip of memCacheDisk; rejection of every proper prefix - an explicit assumption validated on every prefix of every sampled file); file-system semantics of ioutil.WriteFile. Closed under the global context.",
    technique="Coq proof over all parsed documents (total well-formedness, subset, round trip) + crash-prefix enumeration and structural corruption on the implementation"),
+ "C10": dict(
+   text="Proof (Coq): a generic theorem over Go's RWMutex discipline - if every thread's program passes the boolean protocol checker (every map access inside the matching lock region of its shard, writes under the write lock, no nested acquisition), then in EVERY reachable state of EVERY interleaving of ANY number of threads no two threads are about to access the same shard's map with one writing (inductive invariant: writer => exclusive, readers => no writer). The lock / map-access skeletons of insert, retrieve, allSetIds, Dump and IRPC.Get of both caches are REGENERATED from the Go AST on every run and the kernel checks all of them at all 32 shards (balanced operations compose, so any sequences of operations are covered). Tie: the real caches under the Go race detector with N+N decoders, concurrent Dump + reload and IRPC.Get, checking also that every lookup/reloaded template is one complete announced definition for exactly its key. Label: partial.",
+   note="Partial: the theorem is about the lock protocol at shard granularity; that sync.RWMutex, Go maps and the memory model implement it, the start-up window before mCache is assigned, and getShard's append(addr,...) not touching a shared backing array are runtime facts covered only by the sampled race-detector runs. 'Complete template previously announced for exactly that key' rests on C04's sequential refinement plus race freedom. Closed under the global context.",
+   technique="Coq invariant proof over all interleavings of a lock-protocol model whose programs are regenerated from the Go AST + race-detector stress"),
 }
 REASON_TODO = "check under construction in this build session (not yet claimed)"
 props = [json.loads(l) for l in open(os.path.join(ROOT, "properties.jsonl"))]
